@@ -466,6 +466,15 @@ Proof.
     eapply frame_trans; [apply frame_mark; left; reflexivity | apply frame_info; reflexivity].
 Qed.
 
+Lemma info_visit_test t x : info (visit_test t x) = info x.
+Proof. destruct t; [apply info_visit_e | reflexivity]. Qed.
+(* a step that leaves the map alone, before a simulated closure *)
+Lemma sim_pre K p m g (f : st -> st) : sim K p m g -> (forall x, info (f x) = info x) -> sim K p (fun x => m (f x)) (fun x => g (f x)).
+Proof.
+  intros H Hi x Hf. destruct (H (f x) (fresh_info _ _ _ (Hi x) Hf)) as [E1 [E2 F]].
+  dsplit; [exact E1 | exact E2 | eapply frame_trans; [apply (frame_info x (f x)); apply Hi | exact F]].
+Qed.
+
 Lemma sim_nilC : sim_c [] [] (fun y => y) (fun y => (y, [], [])).
 Proof. intros x _. cbn [c_st c_rs fst snd map]. dsplit; [reflexivity | apply frame_refl | reflexivity]. Qed.
 
@@ -723,7 +732,8 @@ Proof.
   - intros _. exact sim_nilC.
   - intros cp d ft b IHb r IHr Hn. cbn [keys_c] in Hn. destruct (NoDup_cons_inv _ _ Hn) as [Hp Hn'].
     destruct (NoDup_app_inv _ _ Hn') as [Hnb [Hnr Hd]].
-    eapply sim_c_ext; [| |apply (sim_consC cp _ _ _ _ (cp :: keys_l b) (keys_c r) (case_keys r) (sim_case cp b _ _ _ (IHb Hnb)) (IHr Hnr))].
+    eapply sim_c_ext; [| |apply (sim_consC cp _ _ _ _ (cp :: keys_l b) (keys_c r) (case_keys r)
+                                    (sim_pre _ _ _ _ (visit_test d) (sim_case cp b _ _ _ (IHb Hnb)) (info_visit_test d)) (IHr Hnr))].
     + intros x. reflexivity.
     + intros x. cbn [anG_cases]. unfold consC. reflexivity.
     + intros k Hk [<-|Hk']; [apply Hp; apply in_or_app; right; exact Hk | exact (Hd k Hk' Hk)].
@@ -995,7 +1005,10 @@ Proof.
   - intros x k H. left. exact H.
   - intros s IHs r IHr. eapply (ulog_cons s (fun a => orbG s (anG fx s a)) (anG_list fx r)); [apply ulog_orb; exact IHs | exact IHr].
   - intros x k H. left. exact H.
-  - intros cp d ft b IHb r IHr. apply (ulog_consC (visit_caseG fx cp b (anG_list fx b)) (anG_cases fx r)); [apply ulog_case; exact IHb | exact IHr].
+  - intros cp d ft b IHb r IHr.
+    apply (ulog_consC (fun y => visit_caseG fx cp b (anG_list fx b) (visit_test d y)) (anG_cases fx r)); [|exact IHr].
+    intros x k Hu. destruct (ulog_case cp b _ IHb (visit_test d x) k Hu) as [H|H]; [left | right; exact H].
+    rewrite (U_info x (visit_test d x) k (info_visit_test d x)) in H. exact H.
 Qed.
 
 End Map.
